@@ -3,6 +3,8 @@ import NmVerif.StaticMore
 import NmVerif.StaticEval
 import NmVerif.Lemmas.Static
 import NmVerif.Lemmas.StaticMore
+import NmVerif.StaticGen
+import NmVerif.Lemmas.StaticGen
 /-
   C11 — statically inferred shape, size and bounds agree with every run-time instance.
 
@@ -78,6 +80,7 @@ def targetOk : ArrK → List Int → Prop
   | .cl m, v => (∀ x ∈ v, 0 ≤ x) ∧ LeAll (v.map Int.toNat) m
   | .rt n, v => v.length = n
   | .rtv, _ => True
+  | .bnd cap, v => v.length ≤ cap
 
 theorem reshape_static_sound {i o : SInfo} {s t : Shape} {k : ArrK} {targ : List Int}
     (h : i.γ s) (hk : targetOk k targ) (hr : refReshape targ s = some t) (ho : transferReshape k i = some o) : o.γ t := by
@@ -97,6 +100,7 @@ theorem reshape_static_sound {i o : SInfo} {s t : Shape} {k : ArrK} {targ : List
     rw [hnn h1]; exact h2
   | rt n => simp only [targetOk] at hk; simpa [ArrK.toShapeK, ShapeK.γ, hlen] using hk
   | rtv => trivial
+  | bnd cap => simp only [targetOk] at hk; simpa [ArrK.toShapeK, ShapeK.γ, hlen] using hk
 
 example : refReshape [-1, 2] [2, 3] = some [3, 2] := by decide
 example : transferReshape (.rt 2) ⟨.clipped [2, 3], .any⟩ = some ⟨.fixedDim 2, .atMost 6⟩ := by decide
@@ -190,6 +194,7 @@ theorem tile_static_sound {i o : SInfo} {s : Shape} {k : ArrK} {reps : List Nat}
       | cl m => simpa [hsh] using hlen
       | rt n => simpa [hsh] using hlen
       | rtv => simpa [hsh] using hlen
+      | bnd cap => simpa [hsh] using hlen
     | clipped b => simpa [hsh] using hlen
     | fixedDim n => simpa [hsh] using hlen
     | boundedDim n => simpa [hsh] using hlen
@@ -197,6 +202,15 @@ theorem tile_static_sound {i o : SInfo} {s : Shape} {k : ArrK} {reps : List Nat}
   exact indexingInfo_sound hd (productK_sound hd)
 
 example : refTile [3, 1, 2] [2, 3] = [3, 2, 6] := by decide
+/-- repetitions in a `static_vector<int,4>` (bound = capacity) over a rank-2 operand: the result rank is bounded by 4, whatever
+    the run-time length (3, below the capacity, or 4, at it) -/
+example : transferTile (.bnd 4) ⟨.fixedDim 2, .any⟩ = some ⟨.boundedDim 4, .any⟩ ∧ (ArrK.bnd 4).γ [2, 2, 2] ∧ (ArrK.bnd 4).γ [2, 2, 2, 2] ∧
+    (⟨.boundedDim 4, .any⟩ : SInfo).γ (refTile [2, 2, 2] [2, 3]) ∧ (⟨.boundedDim 4, .any⟩ : SInfo).γ (refTile [2, 2, 2, 2] [2, 3]) := by
+  refine ⟨by decide, by simp [ArrK.γ], by simp [ArrK.γ], by decide, by decide⟩
+example : transferBroadcastTo (.bnd 4) ⟨.fixedDim 2, .any⟩ = some ⟨.boundedDim 4, .any⟩ ∧
+    transferReshape (.bnd 3) ⟨.clipped [2, 3], .atMost 6⟩ = some ⟨.boundedDim 3, .atMost 6⟩ ∧
+    transferPad (.bnd 5) ⟨.const [2, 3], .known 6⟩ = some ⟨.fixedDim 2, .any⟩ ∧
+    transferTranspose (some (.bnd 3)) ⟨.boundedDim 3, .any⟩ = some ⟨.boundedDim 3, .any⟩ := by decide
 example : transferTile (.rt 3) ⟨.boundedDim 2, .any⟩ = some ⟨.boundedDim 3, .any⟩ := by decide
 
 /-- admitted run-time values of the `axes` argument of transpose -/
@@ -250,6 +264,8 @@ theorem transpose_static_sound {i o : SInfo} {s t : Shape} {k : Option ArrK} {ax
                   exact indexingInfo_sound (by simpa [ShapeK.γ] using hfacts.1) hz
         | rtv => simp only [hk', Option.map_some, Option.some.injEq] at ho; subst ho
                  exact indexingInfo_sound (by simpa [ShapeK.γ] using hfacts.1) hz
+        | bnd cap => simp only [hk', Option.map_some, Option.some.injEq] at ho; subst ho
+                     exact indexingInfo_sound (by simpa [ShapeK.γ] using hfacts.1) hz
   | clipped b =>
     simp only [hk', ShapeK.γ] at hsh
     cases k with
@@ -280,6 +296,8 @@ theorem transpose_static_sound {i o : SInfo} {s t : Shape} {k : Option ArrK} {ax
                   exact indexingInfo_sound (by simp [ShapeK.γ, hfacts.1, hbl]) hz
         | rtv => simp only [hk', Option.map_some, Option.some.injEq] at ho; subst ho
                  exact indexingInfo_sound (by simp [ShapeK.γ, hfacts.1, hbl]) hz
+        | bnd cap => simp only [hk', Option.map_some, Option.some.injEq] at ho; subst ho
+                     exact indexingInfo_sound (by simp [ShapeK.γ, hfacts.1, hbl]) hz
   | fixedDim n =>
     simp only [hk'] at ho hlenK
     cases k <;> simp only [Option.map_some, Option.some.injEq] at ho <;> subst ho <;> exact indexingInfo_sound hlenK hz
@@ -885,6 +903,160 @@ example : transferMatmul ⟨.const [2, 3], .known 6⟩ ⟨.clipped [3, 2], .atMo
 example : transferMatmul ⟨.const [2, 3], .known 6⟩ ⟨.const [3, 2], .known 6⟩ = some ⟨.const [2, 2], .knownB 4 36⟩ ∧
     (⟨.const [2, 2], .knownB 4 36⟩ : SInfo).fixedSize = some 4 ∧ (⟨.const [2, 2], .knownB 4 36⟩ : SInfo).boundedSize = some 36 := by decide
 
+/-! ## third group: eye, tri, tril / triu, pool2d, resize, sliding_window, compress, outer -/
+
+/-- `view::eye(N, M)` (`v` = the run-time pair): the result type only knows the rank -/
+theorem eye_static_sound {k : ArrK} {v : List Nat} {o : SInfo} (hk : k.γ v) (ho : transferEye k = some o) : o.γ v := by
+  have hl := arrK_lenK_sound hk
+  unfold transferEye at ho
+  split at ho
+  · rename_i hk2
+    rw [hk2] at hl; simp only [LenK.γ] at hl
+    simp only [Option.some.injEq] at ho; subst ho
+    exact indexing_product_sound (by simpa [ShapeK.γ] using hl)
+  · simp at ho
+
+example : transferEye (.ct [2, 3]) = some ⟨.fixedDim 2, .any⟩ ∧ transferEye (.rt 2) = some ⟨.fixedDim 2, .any⟩ ∧
+    (⟨.fixedDim 2, .any⟩ : SInfo).γ [4, 5] := by decide
+example : (ArrK.rt 2).γ [4, 5] := rfl
+
+/-- `view::tri(N, M)`: a constant shape for compile-time N and M -/
+theorem tri_static_sound {k : ArrK} {v : List Nat} {o : SInfo} (hk : k.γ v) (ho : transferTri k = some o) : o.γ v := by
+  have hl := arrK_lenK_sound hk
+  unfold transferTri at ho
+  split at ho
+  · simp only [ArrK.γ] at hk; subst hk
+    simp only [Option.some.injEq] at ho; subst ho
+    exact indexing_product_sound rfl
+  · split at ho
+    · rename_i hk2
+      rw [hk2] at hl; simp only [LenK.γ] at hl
+      simp only [Option.some.injEq] at ho; subst ho
+      exact indexing_product_sound (by simpa [ShapeK.γ] using hl)
+    · simp at ho
+
+example : transferTri (.ct [2, 3]) = some ⟨.const [2, 3], .known 6⟩ ∧ transferTri (.rt 2) = some ⟨.fixedDim 2, .any⟩ := by decide
+
+/-- `view::tril` / `view::triu` (a 1-d operand of n elements gives an (n, n) result) -/
+theorem tril_static_sound {i o : SInfo} {s : Shape} (h : i.γ s) (ho : transferTril i = some o) : o.γ (refTril s) := by
+  simp only [transferTril, Option.some.injEq] at ho; subst ho
+  exact indexing_product_sound (trilShapeK_sound (seen_sound h).1)
+
+example : refTril [3] = [3, 3] ∧ refTril [2, 3, 4] = [2, 3, 4] := by decide
+example : transferTril ⟨.clipped [3], .atMost 3⟩ = some ⟨.fixedDim 2, .any⟩ ∧
+    transferTril ⟨.boundedDim 1, .any⟩ = some ⟨.boundedDim 2, .any⟩ ∧
+    transferTril ⟨.const [3], .known 3⟩ = some ⟨.const [3, 3], .known 9⟩ := by decide
+
+/-- `view::max_pool2d` / `view::avg_pool2d` (kernel, stride: pairs; ceil_mode a compile-time constant): every shape on which
+    the kernel fits; for a clipped operand shape with constant kernel and stride the result maxima are the pooled maxima,
+    sound because the number of windows grows with the extent (`poolDim_mono`) -/
+theorem pool2d_static_sound {i o : SInfo} {s t : Shape} {kk sk : ArrK} {kv sv : List Nat} {ceil : Bool}
+    (h : i.γ s) (hk : kk.γ kv) (hs : sk.γ sv) (href : refPool ceil kv sv s = some t)
+    (ho : transferPool2d kk sk ceil i = some o) : o.γ t := by
+  simp only [transferPool2d, transferPool2dOn, Option.map_eq_some_iff] at ho
+  obtain ⟨d, hd, rfl⟩ := ho
+  exact takeInfo_sound (poolShapeK_sound h.1 hk hs href hd)
+
+/-- the same when the pooled operand answers `nmtools::shape(a)` with another (sound) shape type than its knowledge says
+    (`na::fixed_ndarray`: a run-time array of its constant extents) -/
+theorem pool2d_on_static_sound {src : ShapeK} {o : SInfo} {s t : Shape} {kk sk : ArrK} {kv sv : List Nat} {ceil : Bool}
+    (h : src.γ s) (hk : kk.γ kv) (hs : sk.γ sv) (href : refPool ceil kv sv s = some t)
+    (ho : transferPool2dOn src kk sk ceil = some o) : o.γ t := by
+  simp only [transferPool2dOn, Option.map_eq_some_iff] at ho
+  obtain ⟨d, hd, rfl⟩ := ho
+  exact takeInfo_sound (poolShapeK_sound h hk hs href hd)
+
+example : transferPool2dOn (.fixedDim 2) (.ct [2, 2]) (.ct [1, 1]) false = some ⟨.fixedDim 2, .any⟩ ∧
+    (ShapeK.fixedDim 2).γ [2, 3] ∧ refPool false [2, 2] [1, 1] [2, 3] = some [1, 2] := by decide
+
+example : refPool false [2, 2] [1, 1] [5, 3, 4] = some [5, 2, 3] ∧ refPool true [2, 2] [2, 2] [3, 4] = some [2, 2] ∧
+    refPool true [2, 2] [3, 3] [4, 4] = some [2, 2] ∧ refPool true [1, 1] [3, 3] [3, 4] = some [1, 2] := by decide
+example : transferPool2d (.ct [2, 2]) (.ct [1, 1]) false ⟨.clipped [3, 4], .atMost 12⟩ = some ⟨.clipped [2, 3], .any⟩ ∧
+    refPool false [2, 2] [1, 1] [2, 3] = some [1, 2] ∧ (⟨.clipped [2, 3], .any⟩ : SInfo).γ [1, 2] := by decide
+
+/-- `view::resize(a, dst_shape)` -/
+theorem resize_static_sound {i o : SInfo} {s t : Shape} {k : ArrK} {targ : List Nat}
+    (h : i.γ s) (hk : k.γ targ) (href : refResize targ s = some t) (ho : transferResize k i = some o) : o.γ t := by
+  simp only [transferResize, Option.map_eq_some_iff] at ho
+  obtain ⟨d, hd, rfl⟩ := ho
+  exact indexing_product_sound (resizeShapeK_sound (seen_sound h).1 hk href hd)
+
+example : refResize [4, 5] [3, 4] = some [4, 5] ∧ refResize [4, 0] [3, 4] = none := by decide
+example : transferResize (.ct [3, 4]) ⟨.clipped [3, 4], .atMost 12⟩ = some ⟨.fixedDim 2, .any⟩ ∧
+    transferResize (.ct [3, 4]) ⟨.const [3, 4], .known 12⟩ = some ⟨.const [3, 4], .known 12⟩ ∧
+    transferResize (.rt 3) ⟨.boundedDim 2, .any⟩ = none := by decide
+
+/-- `view::sliding_window(a, window, axis)` for (integer window, one axis) and (window per axis, axis None) -/
+theorem sliding_window_static_sound {i o : SInfo} {s t : Shape} {w : WinK} {wv : WinV} {ax : AxisK} {axis : Option Nat}
+    (h : i.γ s) (hw : w.γ wv) (hax : ax.γ1 axis) (href : refSlidingWindow wv axis s = some t)
+    (ho : transferSlidingWindow w ax i = some o) : o.γ t := by
+  simp only [transferSlidingWindow, Option.map_eq_some_iff] at ho
+  obtain ⟨d, hd, rfl⟩ := ho
+  exact indexing_product_sound (swShapeK_sound (seen_sound h).1 hw hax href hd)
+
+example : refSlidingWindow (.num 2) (some 1) [3, 4] = some [3, 3, 2] ∧
+    refSlidingWindow (.arr [1, 2]) none [3, 4] = some [3, 3, 1, 2] := by decide
+example : transferSlidingWindow (.arr (.ct [1, 2])) .none ⟨.boundedDim 3, .any⟩ = some ⟨.boundedDim 5, .any⟩ ∧
+    transferSlidingWindow (.num (.ct 2)) (.cts 1) ⟨.const [3, 4], .known 12⟩ = some ⟨.const [3, 3, 2], .known 18⟩ := by decide
+
+/-- `view::compress(condition, a, axis)`: every non-zero entry of the condition selects an existing position (NumPy's
+    requirement) -/
+theorem compress_static_sound {i o : SInfo} {s t : Shape} {c : ArrK} {cv : List Nat} {ax : AxisK} {axis : Option Nat}
+    (h : i.γ s) (hc : c.γ cv) (hax : ax.γ1 axis) (href : refCompress cv axis s = some t)
+    (ho : transferCompress c ax i = some o) : o.γ t := by
+  simp only [transferCompress, Option.map_eq_some_iff] at ho
+  obtain ⟨d, hd, rfl⟩ := ho
+  exact compressInfo_sound (compressShapeK_sound (seen_sound h).1 hc hax href hd) h.2 (refCompress_spec href).1
+
+example : refCompress [1, 0, 1] (some 0) [3, 4] = some [2, 4] ∧ refCompress [0, 1] none [3, 4] = some [1] := by decide
+example : transferCompress (.rt 2) .rts ⟨.clipped [3, 4], .atMost 12⟩ = some ⟨.clipped [3, 4], .atMost 12⟩ ∧
+    transferCompress (.ct [1, 0]) (.cts 0) ⟨.clipped [3, 4], .atMost 12⟩ = some ⟨.clipped [1, 4], .atMost 12⟩ ∧
+    transferCompress (.ct [0, 0]) (.cts 0) ⟨.clipped [3, 4], .any⟩ = some ⟨.clipped [1, 4], .any⟩ := by decide
+
+/-- `view::outer_<op>(a, b)`: shapes side by side; fixed_size from the TYPE of `index::size_outer` (a constant only when both
+    operand sizes are constants), bounded_size = the product of the operands' own bounds -/
+theorem outer_static_sound {i j o : SInfo} {a b : Shape} (hi : i.γ a) (hj : j.γ b)
+    (ho : transferOuter i j = some o) : o.γ (refOuter a b) := by
+  have si := seen_sound hi; have sj := seen_sound hj
+  have hd := outerShapeK_sound si.1 sj.1
+  have hz := outerSizeK_sound hd si.2 sj.2
+  have hp : prod (refOuter a b) = prod a * prod b := prod_append a b
+  have hbnd : ∀ x y, i.size.bound? = some x → j.size.bound? = some y → prod (refOuter a b) ≤ x * y := by
+    intro x y hx hy
+    rw [hp]; exact Nat.mul_le_mul (bound?_sound hi.2 hx) (bound?_sound hj.2 hy)
+  unfold transferOuter at ho
+  simp only at ho
+  generalize outerSizeK (outerShapeK i.seen.shape j.seen.shape) i.seen.size j.seen.size = Z at ho hz
+  generalize outerShapeK i.seen.shape j.seen.shape = D at ho hd
+  cases hbi : i.size.bound? with
+  | none =>
+    cases Z <;> simp only [hbi] at ho <;> try (simp at ho; done)
+    all_goals (simp only [Option.some.injEq] at ho; subst ho; exact ⟨hd, trivial⟩)
+  | some x =>
+    cases hbj : j.size.bound? with
+    | none =>
+      cases Z <;> simp only [hbi, hbj] at ho <;> try (simp at ho; done)
+      all_goals (simp only [Option.some.injEq] at ho; subst ho; exact ⟨hd, trivial⟩)
+    | some y =>
+      have hb := hbnd x y hbi hbj
+      cases Z with
+      | known n =>
+        simp only [hbi, hbj, Option.some.injEq] at ho; subst ho
+        refine ⟨hd, ?_⟩
+        simp only [SizeK.γ] at hz
+        split
+        · exact hz
+        · exact ⟨hz, hb⟩
+      | atMost n => simp only [hbi, hbj, Option.some.injEq] at ho; subst ho; exact ⟨hd, hb⟩
+      | any => simp only [hbi, hbj, Option.some.injEq] at ho; subst ho; exact ⟨hd, hb⟩
+      | knownB n m => simp only [hbi, hbj, Option.some.injEq] at ho; subst ho; exact ⟨hd, hb⟩
+
+example : transferOuter ⟨.fixedDim 2, .known 6⟩ ⟨.fixedDim 1, .known 2⟩ = some ⟨.fixedDim 3, .known 12⟩ ∧
+    transferOuter ⟨.fixedDim 2, .known 6⟩ ⟨.fixedDim 1, .atMost 2⟩ = some ⟨.fixedDim 3, .atMost 12⟩ ∧
+    transferOuter ⟨.clipped [2, 3], .any⟩ ⟨.const [2], .known 2⟩ = some ⟨.clipped [2, 3, 2], .any⟩ ∧
+    transferOuter ⟨.boundedDim 3, .any⟩ ⟨.const [2], .known 2⟩ = some ⟨.boundedDim 4, .any⟩ := by decide
+example : (⟨.fixedDim 3, .known 12⟩ : SInfo).γ (refOuter [3, 2] [2]) := by decide
+
 /-! ## composition: every view type reachable by composing the modelled operations -/
 
 /-- expression trees of views; every node carries the KIND of its arguments (what the type knows) and their run-time
@@ -914,6 +1086,14 @@ inductive Prog where
   | mulScalar (p : Prog)
   | where_ (c x y : Prog)
   | matmul (p q : Prog)
+  | eye (k : ArrK) (v : List Nat)
+  | tri (k : ArrK) (v : List Nat)
+  | tril (p : Prog)
+  | pool2d (kk sk : ArrK) (kv sv : List Nat) (ceil : Bool) (p : Prog)
+  | resize (k : ArrK) (targ : List Nat) (p : Prog)
+  | slidingWindow (w : WinK) (wv : WinV) (ax : AxisK) (axis : Option Nat) (p : Prog)
+  | compress (c : ArrK) (cv : List Nat) (ax : AxisK) (axis : Option Nat) (p : Prog)
+  | outer (p q : Prog)
 
 /-- compile-time knowledge of the view type (the library's metafunctions) -/
 def Prog.static : Prog → Option SInfo
@@ -941,6 +1121,14 @@ def Prog.static : Prog → Option SInfo
   | .mulScalar p => p.static.bind transferMulScalar
   | .where_ c x y => c.static.bind (fun i => x.static.bind (fun j => y.static.bind (fun k => transferWhere i j k)))
   | .matmul p q => p.static.bind (fun i => q.static.bind (fun j => transferMatmul i j))
+  | .eye k _ => transferEye k
+  | .tri k _ => transferTri k
+  | .tril p => p.static.bind transferTril
+  | .pool2d kk sk _ _ ceil p => p.static.bind (transferPool2d kk sk ceil)
+  | .resize k _ p => p.static.bind (transferResize k)
+  | .slidingWindow w _ ax _ p => p.static.bind (transferSlidingWindow w ax)
+  | .compress c _ ax _ p => p.static.bind (transferCompress c ax)
+  | .outer p q => p.static.bind (fun i => q.static.bind (fun j => transferOuter i j))
 
 /-- run-time shape of the view object (reference semantics) for the leaf shapes `env` -/
 def Prog.shape (env : Nat → Shape) : Prog → Option Shape
@@ -968,6 +1156,14 @@ def Prog.shape (env : Nat → Shape) : Prog → Option Shape
   | .mulScalar p => p.shape env
   | .where_ c x y => (c.shape env).bind (fun a => (x.shape env).bind (fun b => (y.shape env).bind (fun d => refBroadcast3 a b d)))
   | .matmul p q => (p.shape env).bind (fun a => (q.shape env).bind (fun b => refMatmul a b))
+  | .eye _ v => some v
+  | .tri _ v => some v
+  | .tril p => (p.shape env).map refTril
+  | .pool2d _ _ kv sv ceil p => (p.shape env).bind (refPool ceil kv sv)
+  | .resize _ targ p => (p.shape env).bind (refResize targ)
+  | .slidingWindow _ wv _ axis p => (p.shape env).bind (refSlidingWindow wv axis)
+  | .compress _ cv _ axis p => (p.shape env).bind (refCompress cv axis)
+  | .outer p q => (p.shape env).bind (fun a => (q.shape env).map (fun b => refOuter a b))
 
 /-- side conditions: leaf shapes are instances of the leaf types, argument values are admitted by their kinds,
     extents are positive where the property needs it -/
@@ -998,6 +1194,14 @@ def Prog.ok (env : Nat → Shape) : Prog → Prop
   | .where_ c x y => c.ok env ∧ x.ok env ∧ y.ok env ∧ (∀ a, c.shape env = some a → Pos a) ∧ (∀ b, x.shape env = some b → Pos b) ∧
       (∀ d, y.shape env = some d → Pos d) ∧ (∀ i j k, c.static = some i → x.static = some j → y.static = some k → whereTripled i j k = false)
   | .matmul p q => p.ok env ∧ q.ok env ∧ (∀ a, p.shape env = some a → Pos a) ∧ (∀ b, q.shape env = some b → Pos b)
+  | .eye k v => k.γ v
+  | .tri k v => k.γ v
+  | .tril p => p.ok env
+  | .pool2d kk sk kv sv _ p => p.ok env ∧ kk.γ kv ∧ sk.γ sv
+  | .resize k targ p => p.ok env ∧ k.γ targ
+  | .slidingWindow w wv ax axis p => p.ok env ∧ w.γ wv ∧ ax.γ1 axis
+  | .compress c cv ax axis p => p.ok env ∧ c.γ cv ∧ ax.γ1 axis
+  | .outer p q => p.ok env ∧ q.ok env
 
 /-- the statically inferred knowledge of ANY composed view type is true of the run-time shape of every instance -/
 theorem static_sound (env : Nat → Shape) : ∀ (p : Prog) {o : SInfo} {t : Shape},
@@ -1101,6 +1305,37 @@ theorem static_sound (env : Nat → Shape) : ∀ (p : Prog) {o : SInfo} {t : Sha
       obtain ⟨i, hi, j, hj, ho⟩ := ho; obtain ⟨a, ha, b, hb, ht⟩ := ht
       obtain ⟨hp, hq, hpa, hpb⟩ := hok
       exact matmul_static_sound (static_sound env p hp hi ha) (static_sound env q hq hj hb) (hpa a ha) (hpb b hb) ht ho
+  | .eye k v, o, t, hok, ho, ht => by
+      simp only [Prog.shape, Option.some.injEq] at ht; subst ht
+      exact eye_static_sound hok ho
+  | .tri k v, o, t, hok, ho, ht => by
+      simp only [Prog.shape, Option.some.injEq] at ht; subst ht
+      exact tri_static_sound hok ho
+  | .tril p, o, t, hok, ho, ht => by
+      simp only [Prog.static, Option.bind_eq_some_iff] at ho; simp only [Prog.shape, Option.map_eq_some_iff] at ht
+      obtain ⟨i, hi, ho⟩ := ho; obtain ⟨s, hs, rfl⟩ := ht
+      exact tril_static_sound (static_sound env p hok hi hs) ho
+  | .pool2d kk sk kv sv ceil p, o, t, hok, ho, ht => by
+      simp only [Prog.static, Option.bind_eq_some_iff] at ho; simp only [Prog.shape, Option.bind_eq_some_iff] at ht
+      obtain ⟨i, hi, ho⟩ := ho; obtain ⟨s, hs, ht⟩ := ht
+      exact pool2d_static_sound (static_sound env p hok.1 hi hs) hok.2.1 hok.2.2 ht ho
+  | .resize k targ p, o, t, hok, ho, ht => by
+      simp only [Prog.static, Option.bind_eq_some_iff] at ho; simp only [Prog.shape, Option.bind_eq_some_iff] at ht
+      obtain ⟨i, hi, ho⟩ := ho; obtain ⟨s, hs, ht⟩ := ht
+      exact resize_static_sound (static_sound env p hok.1 hi hs) hok.2 ht ho
+  | .slidingWindow w wv ax axis p, o, t, hok, ho, ht => by
+      simp only [Prog.static, Option.bind_eq_some_iff] at ho; simp only [Prog.shape, Option.bind_eq_some_iff] at ht
+      obtain ⟨i, hi, ho⟩ := ho; obtain ⟨s, hs, ht⟩ := ht
+      exact sliding_window_static_sound (static_sound env p hok.1 hi hs) hok.2.1 hok.2.2 ht ho
+  | .compress c cv ax axis p, o, t, hok, ho, ht => by
+      simp only [Prog.static, Option.bind_eq_some_iff] at ho; simp only [Prog.shape, Option.bind_eq_some_iff] at ht
+      obtain ⟨i, hi, ho⟩ := ho; obtain ⟨s, hs, ht⟩ := ht
+      exact compress_static_sound (static_sound env p hok.1 hi hs) hok.2.1 hok.2.2 ht ho
+  | .outer p q, o, t, hok, ho, ht => by
+      simp only [Prog.static, Option.bind_eq_some_iff] at ho
+      simp only [Prog.shape, Option.bind_eq_some_iff, Option.map_eq_some_iff] at ht
+      obtain ⟨i, hi, j, hj, ho⟩ := ho; obtain ⟨a, ha, b, hb, rfl⟩ := ht
+      exact outer_static_sound (static_sound env p hok.1 hi ha) (static_sound env q hok.2 hj hb) ho
 
 /-- a depth-3 instance: `sum(transpose(add(cl[2,3], cs[1,3]), (1,0)), axis=0)` on the run-time shapes (2,2) and (1,3)
     is refused by NumPy (2 vs 3) — on (2,3),(1,3) the result (2) is an instance of the inferred `fixedDim 1, atMost 6` -/
@@ -1121,6 +1356,23 @@ example : exProg2.ok (fun _ => [1, 2]) :=
 theorem composed_result_buffer_fits (env : Nat → Shape) (p : Prog) {o : SInfo} {t : Shape} {cap : Nat}
     (hok : p.ok env) (ho : p.static = some o) (ht : p.shape env = some t) (hc : o.boundedSize = some cap) : prod t ≤ cap :=
   result_buffer_fits (static_sound env p hok ho ht) hc
+
+/-- a depth-3 instance over the third group: `outer(compress([1,0,1], max_pool2d(cl[4,5], (2,2), (1,1)), axis 0), fdf[2])`
+    on the run-time shapes (3,4) and (2): pooled (2,3), compressed (1,3) — NumPy needs the third entry of the condition to be
+    0 there, so the condition is [1,0,0] —, outer (1,3,2); only the rank 3 is inferred (a pooled view reports no bounded size) -/
+def exProg3 : Prog :=
+  .outer (.compress (.rt 3) [1, 0, 0] (.cts 0) (some 0)
+            (.pool2d (.ct [2, 2]) (.ct [1, 1]) [2, 2] [1, 1] false (.leaf ⟨.clipped [4, 5], .atMost 20⟩ 0)))
+         (.leaf ⟨.fixedDim 1, .known 2⟩ 1)
+def exEnv3 : Nat → Shape := fun n => if n = 0 then [3, 4] else [2]
+example : exProg3.static = some ⟨.fixedDim 3, .any⟩ ∧ exProg3.shape exEnv3 = some [1, 3, 2] := by decide
+example : (Prog.tril (.tile (.bnd 3) [2, 2, 2] (.leaf ⟨.fixedDim 1, .atMost 4⟩ 0))).static = some ⟨.boundedDim 3, .any⟩ ∧
+    (Prog.tril (.tile (.bnd 3) [2, 2, 2] (.leaf ⟨.fixedDim 1, .atMost 4⟩ 0))).shape (fun _ => [3]) = some [2, 2, 6] := by decide
+/-- `composed_result_buffer_fits` is not vacuous on the third group: sliding_window over a tiled clipped leaf -/
+example :
+    let p := Prog.slidingWindow (.num (.ct 2)) (.num 2) (.cts 1) (some 1) (.resize (.ct [3, 4]) [3, 4] (.leaf ⟨.const [2, 2], .known 4⟩ 0))
+    p.static = some ⟨.const [3, 3, 2], .known 18⟩ ∧ p.shape (fun _ => [2, 2]) = some [3, 3, 2] ∧
+    (⟨.const [3, 3, 2], .known 18⟩ : SInfo).boundedSize = some 18 := by decide
 
 /-! ## the eval resolver (array/eval.hpp:706-879): the container chosen from the static knowledge has room -/
 
@@ -1217,5 +1469,113 @@ example : resolveEval ⟨.fixedDim 2, .known 18⟩ = some ⟨.fixedDim 2, .fixed
 theorem composed_eval_result_fits (env : Nat → Shape) (p : Prog) {o : SInfo} {t : Shape} {r : ResK}
     (hok : p.ok env) (ho : p.static = some o) (ht : p.shape env = some t) (hr : resolveEval o = some r) : r.admits t :=
   eval_result_buffer_fits (static_sound env p hok ho ht) hr
+
+/-! ## the OLDER resolver (`resolve_optype<array::eval_t, view_t, none_t>`, eval.hpp:888-948): the default of a bare
+    `array::eval(view)`.  It reuses the OPERAND's container for the result (NmVerif.StaticEval), so the statement of
+    `eval_result_buffer_fits` holds only where that container covers the view's knowledge; elsewhere it fails
+    (`old_eval_counterexample`, known finding C11.old-resolver-operand-container) -/
+
+theorem LeAll.trans' : ∀ {a b c : List Nat}, LeAll a b → LeAll b c → LeAll a c
+  | [], [], [], _, _ => trivial
+  | _ :: _, _ :: _, _ :: _, h1, h2 => ⟨Nat.le_trans h1.1 h2.1, LeAll.trans' h1.2 h2.2⟩
+  | [], [], _ :: _, _, h2 => by simp [LeAll] at h2
+  | _ :: _, _ :: _, [], _, h2 => by simp [LeAll] at h2
+  | [], _ :: _, _, h1, _ => by simp [LeAll] at h1
+  | _ :: _, [], _, h1, _ => by simp [LeAll] at h1
+
+theorem len?_sound {V : ShapeK} {s : Shape} {m : Nat} (hv : V.γ s) (hl : V.len? = some m) : s.length = m := by
+  cases V <;> simp only [ShapeK.len?, Option.some.injEq] at hl <;> simp only [ShapeK.γ] at hv
+  · subst hv; exact hl
+  · rw [(show LeAll s _ from hv).length_eq]; exact hl
+  · omega
+  · simp at hl
+  · simp at hl
+
+theorem shapeK_covers_sound {K V : ShapeK} {s : Shape} (hc : K.covers V = true) (hv : V.γ s) : K.γ s := by
+  cases K with
+  | dyn => trivial
+  | boundedDim b =>
+    cases V with
+    | boundedDim m => simp only [ShapeK.covers, decide_eq_true_eq] at hc; simp only [ShapeK.γ] at hv ⊢; omega
+    | const l => simp only [ShapeK.covers, ShapeK.len?, decide_eq_true_eq] at hc; simp only [ShapeK.γ] at hv ⊢; subst hv; exact hc
+    | clipped m =>
+      simp only [ShapeK.covers, ShapeK.len?, decide_eq_true_eq] at hc
+      simp only [ShapeK.γ] at hv ⊢; rw [(show LeAll s m from hv).length_eq]; exact hc
+    | fixedDim k => simp only [ShapeK.covers, ShapeK.len?, decide_eq_true_eq] at hc; simp only [ShapeK.γ] at hv ⊢; omega
+    | dyn => simp [ShapeK.covers, ShapeK.len?] at hc
+  | fixedDim n =>
+    simp only [ShapeK.covers, beq_iff_eq] at hc
+    exact len?_sound hv hc
+  | clipped mx =>
+    cases V with
+    | clipped m => simp only [ShapeK.covers, decide_eq_true_eq] at hc; exact LeAll.trans' (show LeAll s m from hv) hc
+    | const l => simp only [ShapeK.covers, decide_eq_true_eq] at hc; simp only [ShapeK.γ] at hv; subst hv; exact hc
+    | fixedDim k => simp [ShapeK.covers] at hc
+    | boundedDim k => simp [ShapeK.covers] at hc
+    | dyn => simp [ShapeK.covers] at hc
+  | const l =>
+    cases V with
+    | const l' => simp only [ShapeK.covers, beq_iff_eq] at hc; simp only [ShapeK.γ] at hv ⊢; rw [hv, hc]
+    | clipped m => simp [ShapeK.covers] at hc
+    | fixedDim k => simp [ShapeK.covers] at hc
+    | boundedDim k => simp [ShapeK.covers] at hc
+    | dyn => simp [ShapeK.covers] at hc
+
+theorem bufK_covers_sound {B : BufK} {z : SizeK} {n : Nat} (hc : B.covers z = true) (hz : z.γ n) : B.fits n := by
+  cases B with
+  | dyn => trivial
+  | fixed k =>
+    cases z <;> simp only [BufK.covers, beq_iff_eq] at hc <;> simp only [SizeK.γ] at hz <;> simp only [BufK.fits]
+    · omega
+    · simp at hc
+    · simp at hc
+    · omega
+  | bounded k =>
+    simp only [BufK.covers] at hc
+    cases hb : z.bound? with
+    | none => simp [hb] at hc
+    | some m =>
+      simp only [hb, decide_eq_true_eq] at hc
+      have := bound?_sound hz hb
+      simp only [BufK.fits]; omega
+
+/-- `eval_result_buffer_fits` for the older resolver, one array operand: whenever the container it picks covers the view's
+    static knowledge (always so when it falls back to `vector / vector`), every instance fits -/
+theorem old_eval_result_buffer_fits {a : OperK} {v : SInfo} {s : Shape} {r : ResK} (h : v.γ s)
+    (_hr : resolveEvalOld1 a v = some r) (hc : r.covers v = true) : r.admits s := by
+  simp only [ResK.covers, Bool.and_eq_true] at hc
+  exact ⟨shapeK_covers_sound hc.1 h.1, bufK_covers_sound hc.2 h.2⟩
+
+/-- the same for two array operands -/
+theorem old_eval2_result_buffer_fits {a b : OperK} {v : SInfo} {s : Shape} {r : ResK} (h : v.γ s)
+    (_hr : resolveEvalOld2 a b v = some r) (hc : r.covers v = true) : r.admits s := by
+  simp only [ResK.covers, Bool.and_eq_true] at hc
+  exact ⟨shapeK_covers_sound hc.1 h.1, bufK_covers_sound hc.2 h.2⟩
+
+/-- the fallback container always covers -/
+theorem old_eval_dynamic_covers (v : SInfo) : dynRes.covers v = true := by
+  cases hz : v.size <;> simp [dynRes, ResK.covers, ShapeK.covers, BufK.covers]
+
+example : resolveEvalOld1 ⟨.fixedDim 2, .dyn⟩ ⟨.fixedDim 2, .any⟩ = some ⟨.fixedDim 2, .dyn⟩ ∧
+    (ResK.mk (.fixedDim 2) .dyn).covers ⟨.fixedDim 2, .any⟩ = true ∧ (⟨.fixedDim 2, .any⟩ : SInfo).γ [3, 2] := by decide
+example : resolveEvalOld1 ⟨.const [2, 3], .fixed 6⟩ ⟨.const [3, 2], .known 6⟩ = some dynRes := by decide
+
+/-- the statement FAILS for the older resolver (genuine defect, replayed on the real headers):
+    `array::eval(view::tile(a, reps))` with `a : ndarray_t<vector<int>, static_vector<size_t,3>>` of shape (2,3) and four
+    repetitions: the view has rank 4 (bounded_dim 4), the resolver reuses the operand's type, whose shape container holds at
+    most 3 extents — the result cannot take the shape and the evaluator returns without writing.  Likewise
+    `array::eval(view::add(a, b))` for that `a` and a dynamic `b` of rank 4, and a tiled fixed-buffer operand (two operands of
+    DIFFERENT fixed ranks do not compile: the evaluator's shape comparison static_asserts). -/
+theorem old_eval_counterexample :
+    (transferTile (.rt 4) ⟨.boundedDim 3, .any⟩ = some ⟨.boundedDim 4, .any⟩ ∧
+     (⟨.boundedDim 4, .any⟩ : SInfo).γ [2, 1, 2, 3] ∧
+     resolveEvalOld1 ⟨.boundedDim 3, .dyn⟩ ⟨.boundedDim 4, .any⟩ = some ⟨.boundedDim 3, .dyn⟩ ∧
+     ¬ (ResK.mk (.boundedDim 3) .dyn).admits [2, 1, 2, 3]) ∧
+    (transferUfunc2 ⟨.boundedDim 3, .any⟩ ⟨.dyn, .any⟩ = some ⟨.dyn, .any⟩ ∧
+     resolveEvalOld2 ⟨.boundedDim 3, .dyn⟩ ⟨.dyn, .dyn⟩ ⟨.dyn, .any⟩ = some ⟨.boundedDim 3, .dyn⟩ ∧
+     ¬ (ResK.mk (.boundedDim 3) .dyn).admits [2, 2, 2, 3]) ∧
+    (transferTile (.rt 2) ⟨.fixedDim 2, .known 6⟩ = some ⟨.fixedDim 2, .any⟩ ∧
+     resolveEvalOld1 ⟨.fixedDim 2, .fixed 6⟩ ⟨.fixedDim 2, .any⟩ = some ⟨.fixedDim 2, .fixed 6⟩ ∧
+     ¬ (ResK.mk (.fixedDim 2) (.fixed 6)).admits [2, 6]) := by decide
 
 end NmVerif.Props.C11
